@@ -89,6 +89,11 @@ def str_cases():
         for i in sorted({-1, 0, 1, nch - 1, nch, nch + 1}):
             exp = ("val", "str", s[i]) if 0 <= i < nch else Undefined
             yield s, "index", (i,), f"r[ix]", exp
+            if i >= 0:
+                # the same access with a literal index (the compiler checks it against what it believes the length to be), the receiver
+                # having reached its value in different ways
+                for car in ("plain", "block", "opassign", "const", "longer-first"):
+                    yield s, "index-lit@" + car, (i,), f"r[{i}]", exp
         offs = sorted({-1, 0, 1, 2, n - 1, n, n + 1})
         for a in offs:
             for b in offs:
@@ -294,7 +299,8 @@ class C14(Check):
     id = "C14"
     level = "exploration"
     rule = ("every string method (len, character index, substring, contains, index_of, reverse, insert, replace, delete, split, chars, "
-            "parse_int / _radix, parse_bigint / _radix, parse_float, parse_bool, parse_byte, * repetition, + concatenation) x 25 receivers "
+            "parse_int / _radix, parse_bigint / _radix, parse_float, parse_bool, parse_byte, * repetition, + concatenation; the character index also with a literal index "
+            "on receivers that reached their value plainly / in a nested block / through += / as a const / after a longer string) x 33 receivers "
             "(empty, length 1, ASCII and multi-byte text, blanks, digit / sign / 0x / 0b / hex / exponent forms, extreme decimal strings) x "
             "offsets {-1, 0, 1, 2, len-1, len, len+1}, 7 patterns, radices {1, 2, 10, 16, 36, 37}; every number method (to_int, to_bigint, "
             "to_byte, to_float, abs, pow, powf, sqrt, floor, ceil, round, ipart, fpart, to_str, to_ascii) x boundary values of each kind x "
@@ -345,7 +351,17 @@ class C14(Check):
         expr, e = self.table()[key]
         lines = []
         if case[0] == "s":
-            lines.append(f"r = {q(case[1])}")
+            car = case[2].split("@")[1] if "@" in case[2] else "plain"
+            if car == "plain":
+                lines.append(f"r = {q(case[1])}")
+            elif car == "const":
+                lines.append(f"const r = {q(case[1])}")
+            elif car == "block":
+                lines += ['r = "q"', "if true {", f"\tr = {q(case[1])}", "}"]
+            elif car == "opassign":
+                lines += ['r = ""', f"r += {q(case[1])}"]
+            elif car == "longer-first":
+                lines += ['r = "a much longer string than any receiver"', "if true {", f"\tr = {q(case[1])}", "}"]
             args = case[3]
             if case[2] == "index":
                 lines += N.construct("int", args[0], "ix", "zx")
@@ -375,6 +391,13 @@ class C14(Check):
             viol.append({"sig": sig, "what": f"{desc}: {what}", "detail": detail})
 
         if res.exit != 0 and "Did not compile" in res.err:
+            if desc["method"].startswith("index-lit@"):
+                # a literal index lets the compiler judge the access itself: refusing an out-of-domain access is a failure in time,
+                # refusing an in-domain one is wrong
+                if e is Undefined:
+                    return {"outcome": "undefined-rejected-statically", "nontrivial": True, "tags": [f"m-{desc['method']}"]}
+                bad("in-domain-rejected", f"expected {typed_expected(e)}; the compiler rejects the access: {res.out[-200:]!r}")
+                return {"outcome": "rejected-DIFF", "viol": viol, "nontrivial": True, "tags": [f"m-{desc['method']}"]}
             return {"outcome": "rejected", "nontrivial": False, "tags": ["rejected", f"rej-{desc['method']}"], "show": res.out[-300:]}
         if out[:1] != ["Str:ready"]:
             bad("setup-failed", f"receiver / argument construction failed: {res.err[-200:]}")
